@@ -60,16 +60,16 @@ var c04Ref = []struct {
 }
 
 type opGuard struct {
-	fn        *ast.FuncDecl
-	toks      []string // literals
-	signed    bool     // isSignedNumberToken in the condition
-	kind      string   // for | if | case
-	pos       token.Pos
-	rights    []*types.Func
-	rightPos  []token.Pos
-	hasNext   bool
-	prefix    bool // occurs before the function's first operand parse
-	ctors     []string
+	fn           *ast.FuncDecl
+	toks         []string // literals
+	signed       bool     // isSignedNumberToken in the condition
+	kind         string   // for | if | case
+	pos          token.Pos
+	rights       []*types.Func
+	rightPos     []token.Pos
+	hasNext      bool
+	prefix       bool // occurs before the function's first operand parse
+	ctors        []string
 	noCallBranch token.Pos // a branch assigning the right operand without a parse call
 }
 
